@@ -352,7 +352,12 @@ ${body}"""
     def generate_response(self, environ, start_response):
         if self.content_length is not None:
             del self.content_length
-        headerlist = list(self.headerlist)
+        # The Content-Type (and with it the charset) of the generated body is
+        # decided below; a Content-Type carried by the exception itself, for
+        # example one passed in ``headers``, must not pick the body encoding.
+        headerlist = [
+            (k, v) for (k, v) in self.headerlist if k.lower() != "content-type"
+        ]
         accept_value = environ.get("HTTP_ACCEPT", "")
         accept_header = create_accept_header(header_value=accept_value)
         acceptable_offers = accept_header.acceptable_offers(
@@ -370,7 +375,11 @@ ${body}"""
             content_type = "text/plain"
             body = self.plain_body(environ)
         resp = Response(
-            body, status=self.status, headerlist=headerlist, content_type=content_type
+            body,
+            status=self.status,
+            headerlist=headerlist,
+            content_type=content_type,
+            charset="UTF-8",
         )
         resp.content_type = content_type
 
